@@ -603,11 +603,22 @@ func genOffset(g *gen) tOffset {
 	return o
 }
 
-var tmplFloats = []float32{0, 1, 0.5, 0.25, float32(1.0 / 3.0), 0.1, 0.9, float32(1.0 / 1048576.0), 0.0001, 0.75, float32(2.0 / 3.0)}
+var tmplFloats = []float32{0, 1, 0.5, 0.25, float32(1.0 / 3.0), 0.1, 0.9, float32(1.0 / 1048576.0), 0.0001, 0.75, float32(2.0 / 3.0),
+	1e-7, 1e-10, 1e21, 1e6, 123456789, math.MaxFloat32, math.SmallestNonzeroFloat32, -0.5, float32(math.Copysign(0, -1)), 1e20, 2.5e-5}
+
+// not JSON numbers under %v: only for data that is not "JSON-safe"
+var tmplNonFinite = []float32{float32(math.NaN()), float32(math.Inf(1)), float32(math.Inf(-1))}
+
+func genFloat(g *gen, safe bool) uint32 {
+	if !safe && g.chance(1, 8) {
+		return math.Float32bits(tmplNonFinite[g.intn(len(tmplNonFinite))])
+	}
+	return math.Float32bits(tmplFloats[g.intn(len(tmplFloats))])
+}
 
 func genPart(g *gen, safe, inv bool, problem bool) tPart {
 	p := tPart{topic: genName(g, safe), partition: int32(g.pick(0, 1, 7, 1023, math.MaxInt32)), owner: genName(g, safe), client: genName(g, safe),
-		curlag: uint64(g.pick(0, 1, 17, 1000000, math.MaxInt64)), complete: math.Float32bits(tmplFloats[g.intn(len(tmplFloats))])}
+		curlag: uint64(g.pick(0, 1, 17, 1000000, math.MaxInt64)), complete: genFloat(g, safe)}
 	if g.chance(1, 30) {
 		p.curlag = math.MaxUint64
 	}
@@ -635,7 +646,7 @@ func genPart(g *gen, safe, inv bool, problem bool) tPart {
 func genData(g *gen, safe, inv bool) tData {
 	d := tData{cluster: genName(g, safe), group: genName(g, safe), id: g.pickS("6ba7b810-9dad-11d1-80b4-00c04fd430c8", "", "x"),
 		start: g.pick(0, 1500000000123456789, 1700000000000000000, -1, 253402300799000000000>>6),
-		st:    int(g.pick(0, 1, 2, 3, 3, 2, 4, 5, 6, 7, -1, 1000)), complete: math.Float32bits(tmplFloats[g.intn(len(tmplFloats))]),
+		st:    int(g.pick(0, 1, 2, 3, 3, 2, 4, 5, 6, 7, -1, 1000)), complete: genFloat(g, safe),
 		total: int(g.pick(0, 1, 3, 12, 100000)), lag: uint64(g.pick(0, 1, 999, math.MaxInt64))}
 	if g.chance(1, 30) {
 		d.lag = math.MaxUint64
